@@ -249,6 +249,77 @@ def _duration_writer_int(prog, rep, rule, only_coverage, f, iso, r, date_pairs, 
         rep.violated("R04.2", q, f.loc, "the time designator 'T' is written even when no time component follows: a zero duration renders 'PT' and whole days 'P1DT'", detail="T-unconditional")
 
 
+def _diff_pairs(a, b, out):
+    """The deepest places where two terms differ, as (left, right) pairs; False when they differ outside a term."""
+    if a == b:
+        return True
+    is_term = lambda x: isinstance(x, tuple) and bool(x) and isinstance(x[0], str)
+    if not (isinstance(a, tuple) and isinstance(b, tuple)):
+        return False
+    if is_term(a) != is_term(b):
+        return False
+    if len(a) == len(b) and (not is_term(a) or (a[0] == b[0] and a[0] not in ("const", "param", "ref"))):
+        sub = set()
+        if all(_diff_pairs(x, y, sub) for x, y in zip(a, b)):
+            out |= sub
+            return True
+    if is_term(a):
+        out.add((a, b))
+        return True
+    return False
+
+
+def _diff_merge(a, b, g):
+    """The one term that is `a` where guard `g` held and `b` where it did not, when the two differ by one sub-term
+    (however often it occurs)."""
+    pairs = set()
+    if not _diff_pairs(a, b, pairs) or len(pairs) != 1:
+        return None
+    (x, y), = pairs
+    hole = ("ifexp", g, x, y)
+
+    def build(u, v):
+        if u == v:
+            return u
+        if (u, v) == (x, y):
+            return hole
+        return tuple(build(m, n) for m, n in zip(u, v))
+
+    return build(a, b)
+
+
+def _merge_branch_returns(rets):
+    """A value chosen by an if statement before the return is the conditional expression of its two values: pairs of
+    return paths whose guards differ in exactly one decision, and whose values differ in one place, are folded."""
+    items = [(tuple(p.guards()), p, r) for p, r in rets]
+    changed = True
+    while changed:
+        changed = False
+        for i in range(len(items)):
+            for j in range(len(items)):
+                if i == j:
+                    continue
+                gi, pi, ri = items[i]
+                gj, pj, rj = items[j]
+                if len(gi) != len(gj):
+                    continue
+                d = [k for k in range(len(gi)) if gi[k] != gj[k]]
+                if len(d) != 1:
+                    continue
+                k = d[0]
+                if gi[k][0] != gj[k][0] or gi[k][1] is not True or gj[k][1] is not False:
+                    continue
+                m = _diff_merge(ri, rj, gi[k][0])
+                if m is None or m[0] == "ifexp" and m[1] == gi[k][0] and ri[0] != "ifexp":
+                    continue  # the whole value differs: nothing local to fold
+                items = [x for n, x in enumerate(items) if n not in (i, j)] + [(gi[:k] + gi[k + 1:], pi, m)]
+                changed = True
+                break
+            if changed:
+                break
+    return [(p, r) for _, p, r in items]
+
+
 def duration_writer(prog: Program, rep: Report, rule="R04.2", only_coverage=False):
     # the duration writer is whichever serdes function returns the f-string that opens with the 'P' designator
     f = None
@@ -260,7 +331,7 @@ def duration_writer(prog: Program, rep: Report, rule="R04.2", only_coverage=Fals
             cps = P.paths_of(prog, cand)
         except AnalysisError:
             continue
-        for p, r in P.returns(cps):
+        for p, r in _merge_branch_returns(P.returns(cps)):
             if r[0] == "fstr" and r[1] and (r[1][0] == ("const", "P") or (len(r[1]) > 1 and r[1][0][0] == "fmt" and r[1][1][0] == "const" and str(r[1][1][1]).startswith("P"))):
                 f, target = cand, (p, r)
     if target is None:
